@@ -7,6 +7,7 @@ import (
 	"fmt"
 	"os"
 	"path/filepath"
+	"runtime"
 	"strconv"
 	"strings"
 	"sync"
@@ -17,6 +18,8 @@ import (
 	"go.uber.org/goleak"
 
 	"github.com/form3tech-oss/f1/v2/internal/options"
+	"github.com/form3tech-oss/f1/v2/internal/progress"
+	"github.com/form3tech-oss/f1/v2/internal/run"
 	"github.com/form3tech-oss/f1/v2/internal/verifh/hook"
 	"github.com/form3tech-oss/f1/v2/internal/verifh/kit"
 	"github.com/form3tech-oss/f1/v2/internal/verifh/runkit"
@@ -323,4 +326,52 @@ stages:
 	if hung || el > 1200*time.Millisecond {
 		o.Fail("file-users-stage-ignores-completion-timeout", fmt.Sprintf("file-triggered run with a users stage returned after %s (max-duration 200ms + completion timeout 150ms): the stage waits for its workers without bound", el.Round(time.Millisecond)))
 	}
+}
+
+// ---------------------------------------------------------------- the result's lock under the two goroutines that share it during a run
+
+// While a run is triggering, exactly two goroutines use the Result: the progress reporter
+// (SnapshotProgress, then Progress / HasDroppedIterations) and the goroutine of Run.Do
+// (RecordStarted, the end-of-triggering messages, RecordTestFinished). sync.RWMutex is
+// writer-preferring: if any of the readers took the read lock recursively, a writer arriving
+// in between would wedge both, and Run.Do would never return. The stress replays exactly
+// those calls against each other.
+func TestC05Locks(t *testing.T) {
+	o := kit.Get()
+	defer o.Close()
+	rounds := kit.N(150000, 1500000)
+	res := run.VerifResultFrom(options.RunOptions{MaxDuration: time.Second}, nil, progress.Snapshot{})
+	res.RecordStarted()
+	done := make(chan struct{}, 2)
+	go func() { // the progress reporter
+		for i := 0; i < rounds; i++ {
+			res.SnapshotProgress(time.Second)
+			_ = res.Progress()
+			_ = res.HasDroppedIterations()
+		}
+		done <- struct{}{}
+	}()
+	go func() { // Run.Do / Run.run
+		for i := 0; i < rounds; i++ {
+			_ = res.MaxDurationElapsed()
+			_ = res.Interrupted()
+			_ = res.MaxIterationsReached()
+			res.RecordTestFinished()
+			res.RecordStarted()
+			_ = res.Error()
+		}
+		done <- struct{}{}
+	}()
+	for k := 0; k < 2; k++ {
+		select {
+		case <-done:
+		case <-time.After(60 * time.Second):
+			buf := make([]byte, 1<<16)
+			n := runtime.Stack(buf, true)
+			o.Fail("result-lock-wedged", "the progress reporter's calls (SnapshotProgress, Progress, HasDroppedIterations) and Run.Do's calls (MaxDurationElapsed, Interrupted, MaxIterationsReached, RecordTestFinished, RecordStarted, Error) on one Result wedged each other: "+string(buf[:min(n, 3000)]))
+			return
+		}
+	}
+	o.Stat("lock_stress_rounds", rounds)
+	o.Case("c05_ok", []string{"0", "0", "0", "0", "0", kit.Str("result-lock/reporter-vs-run")}, "T", "locks", "nt")
 }
